@@ -419,31 +419,68 @@ func checkAugment(c *Ctx, p *Prog, rule string) {
 		c.Undecided(rule, "SyntaxPart.augment", "function not found")
 		return
 	}
-	var appends []string
+	// lists are followed by content: a literal or made slice is its elements, anything else is "...name"
+	lists := map[string][]string{}
+	contents := func(r *Run, v Val) []string {
+		switch x := v.(type) {
+		case VSlice:
+			if c, ok := x.Len.(VConst); ok && c.V != nil && c.V.ExactString() == "0" {
+				return nil
+			}
+		case VOpq:
+			if l, ok := lists[x.Name]; ok {
+				return l
+			}
+			if strings.HasPrefix(x.Name, "&") && strings.HasSuffix(x.Name, "[:]") {
+				nm := x.Name[1 : len(x.Name)-3]
+				for _, o := range r.objs {
+					if o.Name != nm {
+						continue
+					}
+					var l []string
+					for i := 0; ; i++ {
+						cv, ok := o.cells[fmt.Sprintf("[%d]", i)]
+						if !ok {
+							break
+						}
+						l = append(l, render(cv))
+					}
+					return l
+				}
+			}
+		}
+		return []string{"..." + render(v)}
+	}
+	var final []string
 	reg := &Region{Fn: fn, Summaries: map[string]Summary{
 		"builtin:append": func(r *Run, cc *ssa.CallCommon, args []Val) (Val, error) {
-			appends = append(appends, render(args[0])+" ++ "+render(args[1]))
-			return VOpq{"APPENDED"}, nil
+			l := append(append([]string{}, contents(r, args[0])...), contents(r, args[1])...)
+			nm := fmt.Sprintf("LIST#%d", len(lists))
+			lists[nm] = l
+			final = l
+			return VOpq{nm}, nil
 		},
 	}}
 	out := InterpretSafe(reg, &MapWorld{})
 	stores := out.Stores
 	// the new production: Id "S'", body = [SyntaxProdId(first production's Id)]
 	idOK, bodyOK, listOK := false, false, false
+	newProd := ""
 	for k, v := range stores {
 		if strings.HasSuffix(k, ".Id") && v == `"S'"` {
 			idOK = true
+			newProd = "&" + strings.TrimSuffix(k, ".Id")
 		}
 		if strings.HasSuffix(k, "[0]") && strings.Contains(v, "SyntaxProdId") && strings.Contains(v, "this.ProdList[0]") {
 			bodyOK = true
 		}
-		if strings.HasSuffix(k, ".ProdList") && v == "APPENDED" {
+		if strings.HasSuffix(k, ".ProdList") && strings.HasPrefix(v, "LIST#") && fmt.Sprint(lists[v]) == fmt.Sprint(final) {
 			listOK = true
 		}
 	}
-	appOK := len(appends) == 1 && strings.HasSuffix(appends[0], "++ this.ProdList")
+	appOK := len(final) == 2 && final[0] == newProd && (final[1] == "...this.ProdList" || final[1] == "...*this.ProdList")
 	c.Ob(rule, "SyntaxPart.augment", out.Term == "return" && idOK && bodyOK && listOK && appOK,
-		fmt.Sprintf("term=%s %s stores=%v appends=%v; required: a production S' whose body is the id of the first production, placed in front of the unchanged production list", out.Term, out.Undecided, stores, appends), p.FnPos(fn))
+		fmt.Sprintf("term=%s %s stores=%v list=%v; required: a production S' whose body is the id of the first production, placed in front of the unchanged production list", out.Term, out.Undecided, stores, final), p.FnPos(fn))
 	// InitialItemSet: item of production 0 at position 0 with follow = end marker
 	is := p.Func(lr1ItemsPkg, "InitialItemSet")
 	if is == nil {
